@@ -133,6 +133,44 @@ Theorem C33_add_files : forall name wt common commit,
 Proof. intros. unfold add_files, LFb. rewrite <- !app_assoc. reflexivity. Qed.
 Print Assumptions C33_add_files.
 
+(* --- Worktree.Open: a directory whose .git file is a gitdir pointer (absolute
+   or relative, any target) is NEVER served from the main repository's storage:
+   either its own admin directory is used, or Open fails.  In particular the
+   leftover directory of a removed linked worktree cannot be used to move the
+   main worktree's HEAD or index.  (Full since the repair "fix: resolve a relative
+   gitdir pointer of a linked worktree against the worktree root": before it a
+   relative pointer made filepath.Rel fail and Open fell back to the main storage.) *)
+Theorem C33_open_pointer_never_main : forall wtroot file p admin_ok,
+  parse_dotgit file = Some p -> go_open wtroot (Some file) admin_ok <> OpenMain.
+Proof. exact open_pointer_never_main. Qed.
+Print Assumptions C33_open_pointer_never_main.
+
+Theorem C33_open_gone_fails : forall wtroot file p admin_ok,
+  parse_dotgit file = Some p -> admin_ok (resolve wtroot p) = false ->
+  go_open wtroot (Some file) admin_ok = OpenErr.
+Proof. exact open_gone_fails. Qed.
+Print Assumptions C33_open_gone_fails.
+
+(* every .git file "gitdir: <anything non-empty>" is such a pointer *)
+Theorem C33_gitdir_files_are_pointers : forall rest,
+  (1 <= List.length rest)%nat -> exists p, parse_dotgit (s "gitdir: " ++ rest) = Some p.
+Proof. exact parse_gitdir_prefix. Qed.
+Print Assumptions C33_gitdir_files_are_pointers.
+
+Example C33_open_inhabited :
+  let gone := fun _ : bytes => false in let there := fun _ : bytes => true in
+  go_open (s "/r/wa") (Some (s "gitdir: /r/w/.git/worktrees/wa
+")) gone = OpenErr /\
+  go_open (s "/r/wa") (Some (s "gitdir: ../w/.git/worktrees/wa
+")) gone = OpenErr /\
+  go_open (s "/r/wa") (Some (s "gitdir: ../w/.git/worktrees/wa
+")) there = OpenDual /\
+  parse_dotgit (s "gitdir: ../w/.git/worktrees/wa 
+") = Some (s "../w/.git/worktrees/wa") /\
+  resolve (s "/r/wa") (s "../w/x") = s "/r/wa/../w/x" /\
+  go_open (s "/r/wa") None gone = OpenMain /\ go_open (s "/r/wa") (Some (s "garbage!!!")) gone = OpenMain.
+Proof. vm_compute. repeat split. Qed.
+
 (* ------------------------------------------------------------ non-vacuity / finite agreement *)
 
 (* on the paths git documents and go-git uses, the two routings agree except
